@@ -2,6 +2,7 @@
 use crate::engine::Args;
 
 pub mod c01;
+pub mod c01_h2c;
 pub mod c02;
 pub mod c02_h2;
 pub mod c03;
